@@ -157,6 +157,8 @@ impl State {
     pub fn increment_clients(&self) {
         self.client_count.fetch_add(1, Ordering::AcqRel);
         self.should_send.store(true, Ordering::Release);
+        #[cfg(metrics_verif)]
+        verif::count(true, &self.client_count, &self.should_send);
     }
 
     pub fn decrement_clients(&self) {
@@ -164,6 +166,8 @@ impl State {
         if count == 1 {
             self.should_send.store(false, Ordering::Release);
         }
+        #[cfg(metrics_verif)]
+        verif::count(false, &self.client_count, &self.should_send);
     }
 
     fn register_metric(
@@ -357,6 +361,8 @@ fn run_transport(
     state: Arc<State>,
     buffer_size: Option<usize>,
 ) {
+    #[cfg(metrics_verif)]
+    let _verif_guard = verif::start(&listener, buffer_size);
     let buffer_limit = buffer_size.unwrap_or(std::usize::MAX);
     let mut events = Events::with_capacity(1024);
     let mut clients = HashMap::new();
@@ -387,6 +393,8 @@ fn run_transport(
                 WAKER => {
                     // Read until we hit our buffer limit or there are no more messages.
                     let _mrxspan = trace_span!("metrics in");
+                    #[cfg(metrics_verif)]
+                    verif::log(verif::Ev::WakeBegin);
                     loop {
                         if buffered_pmsgs.len() >= buffer_limit {
                             // We didn't drain ourselves here, so schedule a future wake so we
@@ -407,6 +415,8 @@ fn run_transport(
 
                         match msg {
                             Event::Metadata(key, metric_type, unit, desc) => {
+                                #[cfg(metrics_verif)]
+                                verif::recv_meta(&key, metric_type as i32, unit, &desc);
                                 let entry = metadata
                                     .entry(key)
                                     .or_insert_with(|| (metric_type, None, None));
@@ -423,6 +433,8 @@ fn run_transport(
                         }
                     }
                     drop(_mrxspan);
+                    #[cfg(metrics_verif)]
+                    verif::batch(&buffered_pmsgs);
 
                     if buffered_pmsgs.is_empty() {
                         trace!("woken for metrics but no pmsgs buffered");
@@ -431,6 +443,8 @@ fn run_transport(
 
                     // Now fan out each of these items to each client.
                     for (token, (conn, wbuf, msgs)) in clients.iter_mut() {
+                        #[cfg(metrics_verif)]
+                        verif::fanout(token);
                         // Before we potentially do any draining, try and drive the connection to
                         // make sure space is freed up as much as possible.
                         let done = drive_connection(conn, wbuf, msgs);
@@ -452,6 +466,8 @@ fn run_transport(
                         let available =
                             if msgs.len() < buffer_limit { buffer_limit - msgs.len() } else { 0 };
                         let to_drain = buffered_pmsgs.len().saturating_sub(available);
+                        #[cfg(metrics_verif)]
+                        verif::log(verif::Ev::Enqueue { token: token.0, dropped: to_drain });
                         let _ = msgs.drain(0..to_drain);
                         msgs.extend(buffered_pmsgs.iter().take(buffer_limit).cloned());
 
@@ -471,9 +487,13 @@ fn run_transport(
                         if let Some((conn, _, _)) = clients.get_mut(&token) {
                             trace!(?conn, ?token, "removing client");
                             clients.remove(&token);
+                            #[cfg(metrics_verif)]
+                            verif::log(verif::Ev::Remove { token: token.0 });
                             state.decrement_clients();
                         }
                     }
+                    #[cfg(metrics_verif)]
+                    verif::log(verif::Ev::WakeEnd);
                 }
                 LISTENER => {
                     // Accept as many new connections as we can.
@@ -487,6 +507,8 @@ fn run_transport(
                                     .expect("failed to register interest for client connection");
 
                                 state.increment_clients();
+                                #[cfg(metrics_verif)]
+                                verif::accept(token.0, &conn, &metadata);
 
                                 // Start tracking them, and enqueue all of the metadata.
                                 let metadata = generate_metadata_messages(&metadata);
@@ -506,10 +528,14 @@ fn run_transport(
                 token => {
                     if event.is_writable() {
                         if let Some((conn, wbuf, msgs)) = clients.get_mut(&token) {
+                            #[cfg(metrics_verif)]
+                            verif::writable(token.0);
                             let done = drive_connection(conn, wbuf, msgs);
                             if done {
                                 trace!(?conn, ?token, "removing client");
                                 clients.remove(&token);
+                                #[cfg(metrics_verif)]
+                                verif::log(verif::Ev::Remove { token: token.0 });
                                 state.decrement_clients();
                             }
                         }
@@ -540,6 +566,8 @@ fn drive_connection(
     wbuf: &mut Option<Bytes>,
     msgs: &mut VecDeque<Bytes>,
 ) -> bool {
+    #[cfg(metrics_verif)]
+    let conn = &mut verif::Conn(conn);
     trace!(?conn, "driving client");
     loop {
         let mut buf = match wbuf.take() {
@@ -639,4 +667,222 @@ fn would_block(err: &io::Error) -> bool {
 
 fn interrupted(err: &io::Error) -> bool {
     err.kind() == io::ErrorKind::Interrupted
+}
+
+/// Verification hooks (only with `--cfg metrics_verif`): an event log of everything the transport
+/// thread received from its environment, per exporter instance (keyed by listen port), and a
+/// scripted fault plan for the results of `conn.write`.
+#[cfg(metrics_verif)]
+#[allow(missing_docs)]
+pub mod verif {
+    use std::cell::Cell;
+    use std::collections::{HashMap, VecDeque};
+    use std::io::{self, Write};
+    use std::sync::atomic::{AtomicBool, AtomicUsize, Ordering};
+    use std::sync::Mutex;
+
+    /// Result of one `conn.write` call as seen by `drive_connection`.
+    #[derive(Debug, Clone, PartialEq, Eq)]
+    pub enum W {
+        Wrote(usize),
+        WouldBlock,
+        Interrupted,
+        Err(String),
+    }
+
+    /// Scripted outcome for the next `conn.write` call of an instance.
+    #[derive(Debug, Clone, Copy, PartialEq, Eq)]
+    pub enum Inj {
+        /// call the socket unchanged
+        Pass,
+        /// hand the socket only `1 + x % (len - 1)` bytes of the buffer (a short write)
+        Short(usize),
+        /// return `ErrorKind::Interrupted` without calling the socket
+        Eintr,
+        /// return `ErrorKind::WouldBlock` without calling the socket
+        Block,
+    }
+
+    #[derive(Debug, Clone)]
+    pub enum Ev {
+        Start { limit: Option<usize> },
+        Exit { panicking: bool },
+        Accept { token: usize, peer_port: u16, meta_order: Vec<String> },
+        WakeBegin,
+        RecvMeta { name: String, mtype: i32, unit: Option<String>, desc: String },
+        Batch { frames: Vec<Vec<u8>> },
+        Fanout { token: usize },
+        Enqueue { token: usize, dropped: usize },
+        Write { token: usize, len: usize, res: W, injected: bool },
+        Remove { token: usize },
+        WakeEnd,
+        Writable { token: usize },
+        Count { inc: bool, count: i64, should_send: bool },
+    }
+
+    #[derive(Debug, Default)]
+    pub struct Inst {
+        pub log: Vec<Ev>,
+        /// number of channel messages the transport thread has taken so far
+        pub received: usize,
+        pub accepted_ports: Vec<u16>,
+        pub should_send: bool,
+        pub exited: Option<bool>,
+        pub plan: VecDeque<Inj>,
+        /// per token: (bytes the socket accepted, whether the last write took the whole buffer)
+        pub written: HashMap<usize, (usize, bool)>,
+    }
+
+    static SINK: Mutex<Option<HashMap<u16, Inst>>> = Mutex::new(None);
+
+    thread_local! {
+        static INSTANCE: Cell<u16> = Cell::new(0);
+        static CURRENT: Cell<usize> = Cell::new(0);
+    }
+
+    /// Run `f` on the record of the exporter listening on `port` (created on first use).
+    pub fn with_inst<R>(port: u16, f: impl FnOnce(&mut Inst) -> R) -> R {
+        let mut g = SINK.lock().unwrap_or_else(|e| e.into_inner());
+        let m = g.get_or_insert_with(HashMap::new);
+        f(m.entry(port).or_default())
+    }
+
+    fn here<R>(f: impl FnOnce(&mut Inst) -> R) -> R {
+        with_inst(INSTANCE.with(|i| i.get()), f)
+    }
+
+    pub fn log(ev: Ev) {
+        here(|i| i.log.push(ev));
+    }
+
+    pub struct Guard;
+
+    impl Drop for Guard {
+        fn drop(&mut self) {
+            let p = std::thread::panicking();
+            here(|i| {
+                i.exited = Some(p);
+                i.log.push(Ev::Exit { panicking: p });
+            });
+        }
+    }
+
+    pub fn start(listener: &mio::net::TcpListener, limit: Option<usize>) -> Guard {
+        let port = listener.local_addr().map(|a| a.port()).unwrap_or(0);
+        INSTANCE.with(|i| i.set(port));
+        log(Ev::Start { limit });
+        Guard
+    }
+
+    pub fn count(inc: bool, count: &AtomicUsize, should_send: &AtomicBool) {
+        let c = count.load(Ordering::Acquire) as i64;
+        let s = should_send.load(Ordering::Acquire);
+        here(|i| {
+            i.should_send = s;
+            i.log.push(Ev::Count { inc, count: c, should_send: s });
+        });
+    }
+
+    pub fn recv_meta(
+        key: &metrics::KeyName,
+        mtype: i32,
+        unit: Option<metrics::Unit>,
+        desc: &metrics::SharedString,
+    ) {
+        let ev = Ev::RecvMeta {
+            name: key.as_str().to_string(),
+            mtype,
+            unit: unit.map(|u| u.as_str().to_string()),
+            desc: desc.to_string(),
+        };
+        here(|i| {
+            i.received += 1;
+            i.log.push(ev);
+        });
+    }
+
+    pub fn batch(frames: &VecDeque<bytes::Bytes>) {
+        let fs: Vec<Vec<u8>> = frames.iter().map(|b| b.to_vec()).collect();
+        here(|i| {
+            i.received += fs.len();
+            i.log.push(Ev::Batch { frames: fs });
+        });
+    }
+
+    pub fn fanout(token: &mio::Token) {
+        let token = token.0;
+        CURRENT.with(|c| c.set(token));
+        log(Ev::Fanout { token });
+    }
+
+    pub fn writable(token: usize) {
+        CURRENT.with(|c| c.set(token));
+        log(Ev::Writable { token });
+    }
+
+    pub fn accept<V>(
+        token: usize,
+        conn: &mio::net::TcpStream,
+        metadata: &HashMap<metrics::KeyName, V>,
+    ) {
+        let peer_port = conn.peer_addr().map(|a| a.port()).unwrap_or(0);
+        let meta_order = metadata.keys().map(|k| k.as_str().to_string()).collect();
+        here(|i| {
+            i.accepted_ports.push(peer_port);
+            i.log.push(Ev::Accept { token, peer_port, meta_order });
+        });
+    }
+
+    /// Stands in for the client socket inside `drive_connection`: logs every write result and
+    /// applies the instance's fault plan.
+    #[derive(Debug)]
+    pub struct Conn<'a>(pub &'a mut mio::net::TcpStream);
+
+    impl<'a> std::ops::Deref for Conn<'a> {
+        type Target = mio::net::TcpStream;
+        fn deref(&self) -> &Self::Target {
+            self.0
+        }
+    }
+
+    impl<'a> std::ops::DerefMut for Conn<'a> {
+        fn deref_mut(&mut self) -> &mut Self::Target {
+            self.0
+        }
+    }
+
+    impl<'a> Write for Conn<'a> {
+        fn write(&mut self, buf: &[u8]) -> io::Result<usize> {
+            let token = CURRENT.with(|c| c.get());
+            let inj = here(|i| i.plan.pop_front()).unwrap_or(Inj::Pass);
+            let (res, injected) = match inj {
+                Inj::Short(x) if buf.len() >= 2 => {
+                    (self.0.write(&buf[..1 + x % (buf.len() - 1)]), true)
+                }
+                Inj::Eintr => (Err(io::Error::from(io::ErrorKind::Interrupted)), true),
+                Inj::Block => (Err(io::Error::from(io::ErrorKind::WouldBlock)), true),
+                _ => (self.0.write(buf), false),
+            };
+            let w = match &res {
+                Ok(n) => W::Wrote(*n),
+                Err(e) if e.kind() == io::ErrorKind::WouldBlock => W::WouldBlock,
+                Err(e) if e.kind() == io::ErrorKind::Interrupted => W::Interrupted,
+                Err(e) => W::Err(format!("{:?}", e.kind())),
+            };
+            let len = buf.len();
+            here(|i| {
+                let e = i.written.entry(token).or_insert((0, true));
+                if let W::Wrote(n) = w {
+                    e.0 += n;
+                }
+                e.1 = w == W::Wrote(len);
+                i.log.push(Ev::Write { token, len, res: w, injected });
+            });
+            res
+        }
+
+        fn flush(&mut self) -> io::Result<()> {
+            self.0.flush()
+        }
+    }
 }
